@@ -244,3 +244,51 @@ def check_linear(ctx, rule, body, local, allowed, what="entry", key_extra="", ca
 def pkey_(place):
     from .sim import pkey
     return pkey(place)
+
+
+def always_reaches(F, body, pred, depth=3, _stack=()):
+    """every normal path entry->Return of `body` passes a call that satisfies pred, directly or through a workspace
+    callee / closure argument for which the same holds (must-pass-through, interprocedural to `depth`)"""
+    if body.def_ in _stack:
+        return False
+    sites = []
+    for cs in body.calls():
+        if pred(cs):
+            sites.append(cs.bb)
+        elif depth > 0:
+            subs = local_callee_bodies(F, cs)
+            # a closure passed to FnOnce::call_once-style invocation is handled by the caller binding, not here
+            if subs and all(always_reaches(F, sb, pred, depth - 1, _stack + (body.def_,)) for sb in subs):
+                sites.append(cs.bb)
+    if not sites:
+        return False
+    return body.must_pass(sites)
+
+
+def closure_for_operand(F, body, op):
+    """closure body whose aggregate flows into operand `op` (e.g. a closure passed as an argument)"""
+    l = op_local(op)
+    if l is None:
+        return None
+    h = body.locals[l].get("head", {})
+    if "closure" in h:
+        return F.bodies.get((body.crate, h["closure"]))
+    return None
+
+
+def switch_on_call_result(body, cs):
+    """switch blocks whose discriminant is (derived directly from) the result local of call `cs`;
+    returns list of (switch bb, {value: target}, otherwise)"""
+    out = []
+    if cs.dest.get("p"):
+        return out
+    dl = cs.dest["l"]
+    pr = Prov(body)
+    for i in body.live_blocks():
+        t = body.term(i)
+        if t["k"] != "switch":
+            continue
+        o = pr.operand(t["discr"])
+        if ("call", cs.bb) in o:
+            out.append((i, {v: tb for v, tb in t["targets"]}, t["otherwise"]))
+    return out
